@@ -9,7 +9,26 @@ def collect(ctx):
     ctx.build(gofasta=False)
     vecs = kernel.tlc_gen(ctx, "GenFasta", "GenFasta.cfg" if ctx.quick else "GenFasta_thorough.cfg", timeout=3000)
     vecs += kernel.rand_vectors(ctx, "fasta", 1500 if ctx.quick else 30000)
+    vecs += buffer_edge_vectors(ctx)
     return kernel.run_vectors(ctx, "fasta", vecs, timeout=6000)
+
+
+def buffer_edge_vectors(ctx):
+    """Valid three-record alignments, one line per sequence, of every width around 4 kB and 8 kB (and 16 kB in thorough): a record
+    boundary at every offset relative to the 4096-byte (doubling) buffers of bufio - where a reader that keeps a slice of the
+    scanner's buffer across Scan calls, or assumes a header is already buffered, goes wrong."""
+    import random
+    rng = random.Random(ctx.seed + 5)
+    widths = list(range(4060, 4104, 1 if not ctx.quick else 2)) + list(range(8160, 8200, 1 if not ctx.quick else 3))
+    if not ctx.quick:
+        widths += list(range(16350, 16390))
+    out = []
+    for w in widths:
+        recs = [("s1", "".join(rng.choice("ACGT") for _ in range(w))), ("s2 second", "".join(rng.choice("ACGT") for _ in range(w))),
+                ("s3", "".join(rng.choice("ACGT") for _ in range(w)))]
+        text = "".join(">%s\n%s\n" % r for r in recs)
+        out.append({"id": "edge-%d" % w, "raw": [ord(ch) for ch in text], "valid": 3})
+    return out
 
 
 def run(ctx):
